@@ -147,7 +147,38 @@ func c03Run(c *fw.Case, env *fw.Env) *fw.Obs {
 			return o
 		}
 		defer sdb.Close()
-		csum, com, _ := mon.SaveCommitObj(db, sum, nil, "broken", time.Unix(1600000000, 0))
+		// keyless tables: an older commit of the same branch holds a second defective table with fewer columns, so that
+		// one Resolve call re-ingests tables of different widths
+		var parents [][]byte
+		var sum2 []byte
+		if len(p.T.PK) == 0 && len(cols) >= 2 {
+			w2 := (len(cols) + 1) / 2
+			seen := map[string]bool{}
+			var proj [][]string
+			for _, r := range sorted {
+				k := keyStr(r[:w2])
+				if !seen[k] {
+					seen[k] = true
+					proj = append(proj, append([]string(nil), r[:w2]...))
+				}
+			}
+			sort.Slice(proj, func(i, j int) bool {
+				return bytes.Compare(mon.EncodeStrList(proj[i]), mon.EncodeStrList(proj[j])) < 0
+			})
+			var raw2 [][]string
+			for i, r := range proj {
+				raw2 = append(raw2, r)
+				if i%5 == 1 || i == len(proj)-1 {
+					raw2 = append(raw2, append([]string(nil), r...))
+				}
+			}
+			if s2, err := mon.BuildTableRaw(db, cols[:w2], nil, raw2, -1); err == nil {
+				sum2 = s2
+				psum, _, _ := mon.SaveCommitObj(db, s2, nil, "older broken", time.Unix(1599990000, 0))
+				parents = [][]byte{psum}
+			}
+		}
+		csum, com, _ := mon.SaveCommitObj(db, sum, parents, "broken", time.Unix(1600000000, 0))
 		ref.CommitHead(rs, "main", csum, com, nil)
 		d := doctor.NewDoctor(db, rs, conf.User{Name: "v", Email: "v@v"}, logr.Discard())
 		ctx, cancel := context.WithCancel(context.Background())
@@ -195,6 +226,11 @@ func c03Run(c *fw.Case, env *fw.Env) *fw.Obs {
 			return o
 		}
 		report("doctor-resolve", db, ncom.Table, true)
+		if sum2 != nil && len(ncom.Parents) == 1 {
+			if pcom, err := objects.GetCommit(db, ncom.Parents[0]); err == nil && !bytes.Equal(pcom.Table, sum2) {
+				report("doctor-resolve-older-commit", db, pcom.Table, false)
+			}
+		}
 	}
 	if len(rows) >= 2 {
 		o.Key("%s/%s/%s/%d", p.Producer, p.Defect, class, p.T.TableSeed%1000000)
